@@ -11,40 +11,7 @@ NOTE = ("Trusted: Lean 4.33 kernel; axioms ⊆ {propext, Classical.choice, Quot.
         "the correspondence harness (real code vs. the model's executable definitions on generated cases); "
         "CPython/asyncio semantics are exercised, not modelled. ")
 
-CLAIMED = {
-    'C01': dict(
-        text=("Lean theorems for the whole codec: mutual prefix-parser round trip over every wire type (all widths, "
-              "utf-8 strings via core's verified UTF-8, nested arrays of records), top-level guards / trailing "
-              "optionals / defaults for every in-domain value (decidable inDomain), frame header, family dispatch "
-              "with unique ids, compression for any lawful zlib, obfuscation for all keys and lengths; the schema "
-              "table is regenerated from messages.py on every run and re-decided well-formed and equal to the frozen "
-              "pinned layout (decide +kernel); the hand-written engine model is tied to primitives.py/obfuscation.py "
-              "by byte-exact agreement (encode and decode direction) on type-directed generated messages of every "
-              "class, and the round trip / prefix / code / pinned-bytes clauses are monitored on the real code."),
-        note=NOTE + "zlib is a parameter with the law inflate(deflate x)=x; struct/inet_aton/str.encode are CPython.",
-        technique="Lean 4 proof (mutual structural induction, decide +kernel over regenerated tables) + schema translator + differential correspondence",
-        design="5/C01"),
-    'C09': dict(
-        text=("Lean theorems over every chain of the shipped naming strategies, every remote path (any character "
-              "list) and every directory content: result lies strictly inside the download directory, name is "
-              "regular, fresh for chains ending in number-duplicate (decimal print/parse round trip), and active "
-              "concurrent downloads hold pairwise distinct paths (invariant over all start/finish op lists); model "
-              "tied to naming.py / calculate_download_path / _prepare_download_path by exact agreement on real temp "
-              "directories and real _download_file tasks under schedule-gated executor interleavings."),
-        note=NOTE + "POSIX separators, no symlinks inside the download directory, ASCII digits for \\d.",
-        technique="Lean 4 proof (fold invariant, op-list invariant) + differential correspondence on real directories",
-        design="5/C09"),
-    'C20': dict(
-        text=("Lean theorems over every poll/limit-change history of the token-bucket model (window bound with the "
-              "exact slack the code has, full-strength bound when the window does not start on a full bucket, "
-              "counterexample theorem for the known finding, lone-waiter progress in <= 16 polls); constants "
-              "regenerated from rate_limiter.py; model tied to the real LimitedRateLimiter/UnlimitedRateLimiter/"
-              "Network.set_upload_speed_limit by exact agreement of grant, bucket and refill clock on generated "
-              "op sequences; the window bound is also monitored on the real traces."),
-        note=NOTE + "Clock readings on a 1/1024 s grid (float-exact); float rounding off that grid not modelled.",
-        technique="Lean 4 proof (potential-function invariant by induction over op lists) + generated constants + differential correspondence",
-        design="5/C20"),
-}
+CLAIMED = json.loads((VERIF / 'tools' / 'claims.json').read_text())
 
 PENDING_REASON = "check not built yet in this round (planned: see DESIGN.md section 5); not claimed until its Lean theorems and correspondence exist"
 
